@@ -349,7 +349,12 @@ impl Lmdb {
         when: Time,
     ) -> Result<(), Error> {
         let key = Self::key_naddr_index(addr);
-        self.deleted_naddrs.put(txn, &key, &when.as_u64())?;
+        // Deletion requests can arrive in any order: keep the latest deletion time
+        let when = match self.deleted_naddrs.get(txn, &key)? {
+            Some(existing) if existing > when.as_u64() => existing,
+            _ => when.as_u64(),
+        };
+        self.deleted_naddrs.put(txn, &key, &when)?;
         Ok(())
     }
 
